@@ -257,6 +257,17 @@ fn implementors(bytes: &[u8], cut1: usize, cut2: Option<usize>, extra_tail: &[u8
         ("Chain", Spec::Chain(false, Box::new(Spec::Slice(all[..c1].to_vec())), Box::new(Spec::Bytes(1, all[c1..].to_vec())))),
         ("ChainSeg", Spec::Chain(true, Box::new(seg(0)), Box::new(Spec::Slice(Vec::new())))),
         ("Take", Spec::Take(n, false, Box::new(Spec::Chain(false, Box::new(seg(1)), Box::new(Spec::Slice(vec![0x55; 3])))))),
+        // every byte in a chunk of its own (with an empty chunk in between): values spread over up to 16 chunks
+        ("SegBytes", {
+            let mut ps: Vec<Vec<u8>> = Vec::new();
+            for (i, &x) in all.iter().enumerate() {
+                if i == c1 {
+                    ps.push(Vec::new());
+                }
+                ps.push(vec![x]);
+            }
+            Spec::Seg((c1 % 3) as u8, ps)
+        }),
         // the value is followed by a practically endless source: the length arithmetic of Chain saturates
         ("TakeChainEndless", Spec::Take(n, false, Box::new(Spec::Chain(false, Box::new(Spec::Slice(all.clone())), Box::new(Spec::Endless))))),
     ];
